@@ -54,8 +54,18 @@ impl Map {
     }
     /// returns 0 or a negative errno
     pub fn update(&mut self, key: &[u8], value: &[u8]) -> i32 {
-        if key.len() != self.def.key_size || value.len() != self.def.value_size {
+        self.update_flags(key, value, 0)
+    }
+    /// the kernel's update flags: 0 = BPF_ANY, 1 = BPF_NOEXIST (fails with EEXIST when the key is present),
+    /// 2 = BPF_EXIST (fails with ENOENT when it is absent); anything else is EINVAL
+    pub fn update_flags(&mut self, key: &[u8], value: &[u8], flags: u64) -> i32 {
+        if key.len() != self.def.key_size || value.len() != self.def.value_size || flags > 2 {
             return -22; // EINVAL
+        }
+        match (flags, self.entries.contains_key(key)) {
+            (1, true) => return -17, // EEXIST
+            (2, false) => return -2, // ENOENT
+            _ => {}
         }
         self.tick += 1;
         let t = self.tick;
@@ -351,6 +361,9 @@ pub fn map_peek(idx: usize, key: &[u8]) -> Option<Vec<u8>> {
 }
 pub fn map_update(idx: usize, key: &[u8], value: &[u8]) -> i32 {
     with(|k| k.maps[idx].update(key, value))
+}
+pub fn map_update_flags(idx: usize, key: &[u8], value: &[u8], flags: u64) -> i32 {
+    with(|k| k.maps[idx].update_flags(key, value, flags))
 }
 pub fn map_delete(idx: usize, key: &[u8]) -> i32 {
     with(|k| k.maps[idx].delete(key))
